@@ -305,7 +305,7 @@ static void worker_loop(Engine &engine, const Batch &b, int w, int W,
     fprintf(out, "R %llu %s\n", (unsigned long long)i,
             outcome_to_json(o, false).dump().c_str());
     fflush(out);
-    if (!o.vclass.empty()) {
+    if (!o.vclass.empty() || o.restart_worker) {
       // process state may be inconsistent after a violation: restart
       fprintf(out, "X %llu\n", (unsigned long long)i);
       fflush(out);
